@@ -237,8 +237,9 @@ static enum DeviceState vstore_set(struct Storage* s, const struct StorageProper
 {
     struct vm_dev* d = store_of(s);
     logcall(d, VC_SET, 0); monitor(d, VC_SET);
-    if (VM.store[d->idx].fail_set) return DeviceState_AwaitingConfiguration;
+    if (VM.store[d->idx].fail_set) { if (!d->started) d->armed = 0; return DeviceState_AwaitingConfiguration; }
     (void)p;
+    d->armed = 1;
     return DeviceState_Armed;
 }
 static void vstore_get(const struct Storage* s, struct StorageProperties* p)
@@ -258,7 +259,9 @@ static enum DeviceState vstore_start(struct Storage* s)
     struct vm_dev* d = store_of(s);
     logcall(d, VC_START, d->starts); monitor(d, VC_START);
     int k = d->starts++;
-    if (VM.store[d->idx].fail_start_at == k) return DeviceState_AwaitingConfiguration;
+    // "started only when armed": a storage device that was never configured, or that refused its last start, is not armed
+    if (VM.monitor && !d->armed && !d->started) { char cl[96]; snprintf(cl, sizeof cl, "%s:start-while-not-armed", P()); vs_fail(cl, "vstore%d.start although the device is not armed (no accepted set since it was opened, refused a start, or failed an append)", d->idx); }
+    if (VM.store[d->idx].fail_start_at == k) { d->armed = 0; return DeviceState_AwaitingConfiguration; }
     d->started = 1; d->acq++; d->appends_in_run = 0;
     return DeviceState_Running;
 }
@@ -266,7 +269,7 @@ static enum DeviceState vstore_stop(struct Storage* s)
 {
     struct vm_dev* d = store_of(s);
     logcall(d, VC_STOP, 0); monitor(d, VC_STOP);
-    d->started = 0; d->stops++;
+    d->started = 0; d->stops++; d->armed = 1;
     return DeviceState_Armed;
 }
 static enum DeviceState vstore_append(struct Storage* s, const struct VideoFrame* frames, size_t* nbytes)
@@ -276,7 +279,7 @@ static enum DeviceState vstore_append(struct Storage* s, const struct VideoFrame
     int k = d->appends_in_run++;
     logcall(d, VC_APPEND, (int)*nbytes); monitor(d, VC_APPEND);
     if (cfg->append_ms > 0) vs_sleep_ms(cfg->append_ms);
-    if (cfg->fail_append_at == k) { vs_event(41); d->started = 0; d->self_stops++; /* a storage that fails leaves the running state by itself */ return DeviceState_AwaitingConfiguration; }
+    if (cfg->fail_append_at == k) { vs_event(41); d->started = 0; d->armed = 0; d->self_stops++; /* a storage that fails leaves the running state by itself */ return DeviceState_AwaitingConfiguration; }
     const uint8_t* beg = (const uint8_t*)frames;
     const uint8_t* end = beg + *nbytes;
     char msg[400];
@@ -360,7 +363,7 @@ static enum DeviceStatusCode vd_open(struct Driver* drv, uint64_t i, struct Devi
     if (VM.fail_open[i] > 0) { VM.fail_open[i]--; vs_event(47); return Device_Err; }
     void* pg = mmap(0, 4096, PROT_READ | PROT_WRITE, MAP_PRIVATE | MAP_ANONYMOUS, -1, 0);
     if (pg == MAP_FAILED) return Device_Err;
-    d->page = pg; d->page_bytes = 4096; d->open = 1; d->opens++; d->started = 0;
+    d->page = pg; d->page_bytes = 4096; d->open = 1; d->opens++; d->started = 0; d->armed = 0;
     if (d->kind == 1) {
         struct vcam_obj* o = pg;
         o->idx = d->idx;
